@@ -369,7 +369,7 @@ pub fn run_c15(run: &Run) {
     // the highest positions (beyond 64 and 255); oracle from the formulas
     let big_from = inputs.len();
     for k in 0..(if quick { 6u64 } else { 24 }) {
-        let idx = run.seed * 1000 + k;
+        let idx = run.seed * 1000 + k * 7;
         let l = crate::mid::sparse(idx);
         inputs.push(Input { labels: l.labels.clone(), text: l.text(None, ("\n", "", "")), tts: vec![], ring: Some((0, idx)) });
     }
@@ -386,9 +386,12 @@ pub fn run_c15(run: &Run) {
     let mut jobs: Vec<Job> = vec![];
     // (first, because these runs take longest) larger inputs: every mode x every sorting x {grd+com+stm, stmng+twoval (+ --heu), everything hybrid offers}
     for file in big_from..big_to {
+        // complete models of the 130- and 270-statement members take seconds per run: quick asks biodivine mode only
+        let n = inputs[file].labels.len();
         for mode in 0..3 {
+            let with_com = n < 100 || mode == 1 || !quick;
             for sort in 0..3 {
-                jobs.push(Job { file, mode, sort, flags: 0b111, heu: None, extra: Extra::default() });
+                jobs.push(Job { file, mode, sort, flags: if with_com { 0b111 } else { 0b101 }, heu: None, extra: Extra::default() });
             }
             jobs.push(Job { file, mode, sort: file % 3, flags: (1 << 8) | (1 << 9) | 1, heu: Some(file % 3), extra: Extra::default() });
         }
